@@ -389,6 +389,15 @@ let run_cluster (toks : string list) : string =
             let j = int_of_string j and i = int_of_string i in
             if links.(i) then full_repair j i;
             "X:" ^ touched_dump [ j ]
+          | [ "XG"; j; i ] ->
+            (* the peer's document reads fail: the difference is computed, its removal half applies, the
+               modification half does not *)
+            let j = int_of_string j and i = int_of_string i in
+            if links.(i) then begin
+              let _, r = Model.exchange_diff (nodeat j) (nodeat i) in
+              c := Model.cstep !c (Model.CDiffRemovals (nat_of_int j, r))
+            end;
+            "XG:" ^ touched_dump [ j ]
           | [ "XF"; j; _ ] ->
             (* every storage write of j fails: every handler leaves set and store as they are (C02) *)
             "XF:" ^ touched_dump [ int_of_string j ]
